@@ -359,6 +359,10 @@ func (c *VCtx) acquire(fr *Frame, st *State, lock *Term, write bool, pos token.P
 	for _, o := range owners {
 		sp := c.objectSpec(o.typ)
 		own, whole := c.guardedHeaps(sp, o.typ)
+		if sp.Mode == "sequential" {
+			own, whole = nil, nil
+			c.eng.assume("objects in sequential mode (" + sp.Type + "): calls do not overlap in time (property over call histories)")
+		}
 		for _, hn := range own {
 			hs := c.heapSorts[hn]
 			cur := c.heap(st, hn, hs)
